@@ -25,6 +25,7 @@ func init() {
 			{ID: "C06-R2", Title: "every VM that runs script code is armed for the context", Floor: 3, Run: c06r2},
 			{ID: "C06-R3", Title: "blocking primitives select on ctx.Done()", Floor: 6, Run: c06r3},
 			{ID: "C06-R4", Title: "watcher is armed per run and scoped to it", Floor: 3, Run: func(c *core.Ctx) { watcherRules(c, "C06") }},
+			{ID: "C06-R5", Title: "cancellation observed by a blocking primitive is reported as an error", Floor: 2, Run: c06r5},
 		},
 	})
 }
